@@ -317,12 +317,28 @@ async fn make_records(kind: Kind, recs: &Value) -> Result<Vec<EventRecord>> {
 async fn checkpoint(kind: Kind, c: &Value) -> Result<CommitProof> {
     let mut tree = CommitTree::new();
     let mut leaves = Vec::new();
+    let mut forged = None;
     for x in c.as_array().cloned().unwrap_or_default() {
-        leaves.push(term_hash(kind, x.as_str().unwrap_or("?")).await?);
+        let x = x.as_str().unwrap_or("?").to_string();
+        if x.starts_with('#') {
+            forged = Some(x);
+            continue;
+        }
+        leaves.push(term_hash(kind, &x).await?);
     }
     tree.append(&mut leaves);
     tree.commit();
-    Ok(tree.head()?)
+    // forged checkpoints of EventLog.tla: the root of these leaves, but not their head proof
+    Ok(match forged.as_deref() {
+        Some("#length") => {
+            let mut p = tree.head()?;
+            p.length += 1;
+            p
+        }
+        Some("#leaf0") => tree.proof(&[0])?,
+        Some(other) => return Err(anyhow!("unknown forged checkpoint {other}")),
+        None => tree.head()?,
+    })
 }
 
 fn checked_name(p: &CheckedPatch) -> &'static str {
